@@ -43,10 +43,12 @@ func Do(
 		go func() {
 			defer wg.Done()
 			for {
-				i := int(atomic.AddInt64(&x, 1))
-				if i >= n {
+				// Compared as int64, before narrowing: where int is 32 bits int(i64) wraps around.
+				i64 := atomic.AddInt64(&x, 1)
+				if i64 >= int64(n) {
 					return
 				}
+				i := int(i64)
 				f(i)
 			}
 		}()
@@ -91,10 +93,12 @@ func DoContext(
 	for j := 0; j < parallelism; j++ {
 		eg.Go(func() error {
 			for {
-				i := int(atomic.AddInt64(&x, 1))
-				if i >= n {
+				// Compared as int64, before narrowing: where int is 32 bits int(i64) wraps around.
+				i64 := atomic.AddInt64(&x, 1)
+				if i64 >= int64(n) {
 					return nil
 				}
+				i := int(i64)
 
 				if ctx.Err() != nil {
 					return ctx.Err()
